@@ -28,6 +28,12 @@ def main():
     ap.add_argument('--shards', type=int)
     a = ap.parse_args()
     os.environ.setdefault('PYTHONHASHSEED', '0')
+    # the check's own standard input is /dev/null: code under test that reads the real descriptor 0 in-process (instead of the input() stand-in) gets EOF
+    # at once instead of blocking on whatever the caller's stdin happens to be
+    try:
+        dn = os.open(os.devnull, os.O_RDONLY); os.dup2(dn, 0); os.close(dn)
+    except OSError:
+        pass
     ensure_deps()
     from vlib import evidence, repo
     mod = importlib.import_module('vlib.props.' + a.prop.lower())
